@@ -657,6 +657,7 @@ def run(ctx):
     from . import shared as _sh
 
     _sh.deletion_confined_to_gc_commands(ctx, 'C02.R12')
+    _sh.adapter_delete_discipline(ctx, 'C02.R12')
     # the loader sees every snapshot only if every adapter's listing is complete (pagination ends on the service's own
     # end marker), and a retried upload never publishes a short object over a good one
     from .c12 import r2_rewind as _rw
